@@ -78,8 +78,11 @@ class HeapEngine(HeapOps):
                 if r is not None:
                     out.append((r.raise_(exc_name, node.lineno), None))
                 normal = normal.assume(Not(cond)) if normal is not None else None
-            if c.may_raise:
-                raise Unsupported('may_raise in applied contract %s' % fi.fid)
+            for exc_name, src in c.may_raise.items():
+                cond, ex2 = self.eval_spec(src, st, env_extra=env)
+                r = st.assume(And(cond, *ex2))
+                if r is not None:
+                    out.append((r.raise_(exc_name, node.lineno), None))
             if normal is not None:
                 res = const(fresh_name('res_' + fi.name.strip('_')), VAL)
                 env2 = dict(env)
@@ -224,6 +227,15 @@ def s_uuid_ok(ex, e, st):
     return [(o, VBool(And(Is('VStr', args[0]), App('uuid_ok', BOOL, args[0]))))]
 
 
+def s_anc(ex, e, st):
+    """anc(c, a): a is a proper ancestor of c (ghost relation)"""
+    o, args, _ = _one(ex, e, st)
+    o = o.copy()
+    anc = ex.G(o, 'anc', '(Array Int (Array Int Bool))')
+    return [(o, VBool(And(Is('VRef', args[0]), Is('VRef', args[1]),
+                          Select(Select(anc, ex.rv(args[0])), ex.rv(args[1])))))]
+
+
 def s_is_ref(ex, e, st):
     o, args, _ = _one(ex, e, st)
     return [(o, VBool(Is('VRef', args[0])))]
@@ -231,7 +243,7 @@ def s_is_ref(ex, e, st):
 
 bi.SPEC_BUILTINS.update({
     'item': s_item, 'llen': s_llen, 'old': s_old, 'field': s_field, 'canon_uuid': s_canon,
-    'uuid_ok': s_uuid_ok, 'is_ref': s_is_ref,
+    'uuid_ok': s_uuid_ok, 'is_ref': s_is_ref, 'anc': s_anc,
     'isSec': s_isclass('BaseSection'), 'isProp': s_isclass('BaseProperty'),
     'isDoc': s_isclass('BaseDocument'), 'isSL': s_isclass('SmartList'),
 })
@@ -288,6 +300,7 @@ class HeapVerifier(vcmod.FunctionVerifier):
         for f in ('_sections', '_props', '_parent', '_name', '_id', '_content_type', '_values'):
             ex.H(st, f)
         ex.llen(st), ex.litem(st), ex.pos(st), ex.G(st, 'owner', '(Array Int Int)'), ex.G(st, 'kind', '(Array Int Int)')
+        ex.G(st, 'anc', '(Array Int (Array Int Bool))'), ex.G(st, 'depth', '(Array Int Int)')
         inv_mode = getattr(c, 'inv', True)
         if inv_mode:
             only = None if inv_mode is True else ([inv_mode] if isinstance(inv_mode, str) else list(inv_mode))
@@ -329,6 +342,11 @@ class HeapVerifier(vcmod.FunctionVerifier):
         finally:
             self.ex.cur_func.pop()
         return cond, extra
+
+    def spec_pre(self, src, f):
+        g = f.copy()
+        g.heap = dict(self.ex.pre_heap)
+        return self.spec_in(src, g)
 
     def build_heap_obligations(self, pre, finals):
         c, fid = self.c, self.c.fid
